@@ -22,10 +22,11 @@ def divergence_hat(ex, jnp, u, L):
 def check_projectors(run, ex, jnp, rng, tier):
     for D in (2, 3):
         for N in ((8, 9, 12, 7) if D == 2 else (6, 7)):
-            L = float(rng.choice([1.0, 2 * np.pi, 3.7]))
+          # the projector is scale free: domain extents over many decades (the Laplace symbol runs from 1e-7 to 1e+8)
+          for L in (float(rng.choice([1.0, 2 * np.pi, 3.7])), 700.0, 5.0e3, 2.0e-3):
             dop = ex.spectral.build_derivative_operator(D, L, N)
             P = ex.nonlin_fun.Leray(D, N, derivative_operator=dop)
-            for rep in range(3):
+            for rep in range(3 if L < 100 and L > 0.1 else 1):
                 run.case(("projector", D, N, rep))
                 u = zoo.nyquist_free(ex, jnp, zoo.white_noise(rng, D, D, N, amp=1.0)) + rng.uniform(-1, 1, (D,) + (1,) * D)
                 key = {"kind": "projector", "D": D, "N": N}
